@@ -281,7 +281,17 @@ func (x *explorer) dfs(prefix []int, used int) {
 	}
 }
 
+// stuckKey: the scheduler reports a blocked driver as "STUCK"; it becomes a clause of the scenario's family.
+func (x *explorer) stuckKey(res *vsched.Result) {
+	for i := range res.Violations {
+		if res.Violations[i].Key == "STUCK" {
+			res.Violations[i].Key = x.sc.Family + "|driver-stuck"
+		}
+	}
+}
+
 func (x *explorer) check(prefix []int, res *vsched.Result) {
+	x.stuckKey(res)
 	h := sha256.Sum256([]byte(strings.Join(res.Obs, "\n") + "\n" + res.End))
 	if _, ok := x.outcomes[h]; !ok {
 		x.outcomes[h] = struct{}{}
@@ -315,6 +325,7 @@ func (x *explorer) check(prefix []int, res *vsched.Result) {
 		okRepro := true
 		for k := 0; k < 5; k++ {
 			r2 := vsched.Run(x.t, cfgOf(x.sc, choices, k == 0), x.sc.Run)
+			x.stuckKey(r2)
 			same := false
 			if k == 0 {
 				f.Wire = r2.Wire
@@ -361,6 +372,7 @@ func (x *explorer) newFound() int {
 
 // onceCheck records violations of a run-once enumeration (each is reproduced once).
 func (x *explorer) onceCheck(res *vsched.Result) {
+	x.stuckKey(res)
 	viol := res.Violations
 	if res.Panic != "" {
 		viol = append(viol, vsched.Violation{Key: "panic|" + firstGoatFrame(res.PanicStack), Msg: "panicked: " + res.Panic})
@@ -375,6 +387,7 @@ func (x *explorer) onceCheck(res *vsched.Result) {
 		}
 		x.keys[v.Key] = true
 		r2 := vsched.Run(x.t, cfgOf(x.sc, nil, false), x.sc.Run)
+		x.stuckKey(r2)
 		same := r2.Panic != "" && strings.HasPrefix(v.Key, "panic|")
 		for _, v2 := range r2.Violations {
 			if v2.Key == v.Key {
